@@ -4,39 +4,44 @@ From Coq Require Import List NArith ZArith Bool Lia.
 From NB Require Import Base.Res Base.Json Base.PyStr Diff.DiffFormat Diff.Patch.
 Import ListNotations.
 
-(* ---------- character-level diffs inside a line: addrange(str) / removerange only ---------- *)
-Fixpoint wf_chars (n c : nat) (add_ok : bool) (d : list dentry) : bool :=
-  match d with
-  | [] => true
-  | DAddRange (KI k) (VStr s) :: r =>
-      negb (Nat.eqb (length s) 0) && Nat.leb k n && (Nat.ltb c k || (Nat.eqb c k && add_ok))
-      && wf_chars n k false r
-  | DRemoveRange (KI k) len :: r =>
-      negb (Nat.eqb len 0) && Nat.leb c k && Nat.leb (k + len) n && wf_chars n (k + len) true r
-  | _ => false
-  end.
+(* ---------- sequences: one skeleton for lists, lines of a string, characters of a line ---------- *)
+Section SeqWf.
+  Variable n : nat.                                    (* length of the base sequence *)
+  Variable vl_ok : vlist -> bool.                      (* admissible valuelist shape *)
+  Variable patch_ok : nat -> list dentry -> bool.      (* admissible nested patch at an index *)
+
+  (* [c] = least admissible key; [add_ok] = an addrange at key c is still allowed *)
+  Fixpoint swf (c : nat) (add_ok : bool) (d : list dentry) : bool :=
+    match d with
+    | [] => true
+    | DAddRange (KI k) vs :: r =>
+        vl_ok vs && negb (Nat.eqb (vlen vs) 0) && Nat.leb k n
+        && (Nat.ltb c k || (Nat.eqb c k && add_ok)) && swf k false r
+    | DRemoveRange (KI k) len :: r =>
+        negb (Nat.eqb len 0) && Nat.leb c k && Nat.leb (k + len) n && swf (k + len) true r
+    | DPatch (KI k) dd :: r =>
+        Nat.leb c k && Nat.ltb k n && patch_ok k dd && swf (k + 1) true r
+    | _ => false
+    end.
+End SeqWf.
 
 Definition all_strs (l : list json) : bool :=
   forallb (fun x => match x with JStr _ => true | _ => false end) l.
 
-(* line-level diff of a string whose lines have the given lengths *)
-Fixpoint wf_lines (lines : list pystr) (c : nat) (add_ok : bool) (d : list dentry) : bool :=
-  let n := length lines in
-  match d with
-  | [] => true
-  | DAddRange (KI k) (VList l) :: r =>
-      negb (Nat.eqb (length l) 0) && all_strs l && Nat.leb k n
-      && (Nat.ltb c k || (Nat.eqb c k && add_ok)) && wf_lines lines k false r
-  | DRemoveRange (KI k) len :: r =>
-      negb (Nat.eqb len 0) && Nat.leb c k && Nat.leb (k + len) n && wf_lines lines (k + len) true r
-  | DPatch (KI k) dd :: r =>
-      Nat.leb c k &&
-      match nth_error lines k with
-      | Some line => negb (Nat.eqb (length dd) 0) && wf_chars (length line) 0 true dd
-      | None => false
-      end && wf_lines lines (k + 1) true r
-  | _ => false
-  end.
+Definition vl_is_list (v : vlist) : bool := match v with VList _ => true | VStr _ => false end.
+Definition vl_is_str (v : vlist) : bool := match v with VStr _ => true | VList _ => false end.
+Definition vl_is_lines (v : vlist) : bool := match v with VList l => all_strs l | VStr _ => false end.
+
+(* character-level diffs inside a line: addrange(str) / removerange only *)
+Definition wf_chars (n : nat) (d : list dentry) : bool :=
+  swf n vl_is_str (fun _ _ => false) 0 true d.
+
+(* line-level diff of a string with the given lines *)
+Definition wf_lines (lines : list pystr) (d : list dentry) : bool :=
+  swf (length lines) vl_is_lines
+      (fun k dd => match nth_error lines k with
+                   | Some line => negb (Nat.eqb (length dd) 0) && wf_chars (length line) dd
+                   | None => false end) 0 true d.
 
 Fixpoint wf_diff (fuel : nat) (a : json) (d : list dentry) {struct fuel} : bool :=
   match fuel with
@@ -44,23 +49,10 @@ Fixpoint wf_diff (fuel : nat) (a : json) (d : list dentry) {struct fuel} : bool 
   | S fuel' =>
     match a with
     | JArr items =>
-        (fix wf_seq (c : nat) (add_ok : bool) (d : list dentry) {struct d} : bool :=
-           match d with
-           | [] => true
-           | DAddRange (KI k) (VList l) :: r =>
-               negb (Nat.eqb (length l) 0) && Nat.leb k (length items)
-               && (Nat.ltb c k || (Nat.eqb c k && add_ok)) && wf_seq k false r
-           | DRemoveRange (KI k) len :: r =>
-               negb (Nat.eqb len 0) && Nat.leb c k && Nat.leb (k + len) (length items)
-               && wf_seq (k + len) true r
-           | DPatch (KI k) dd :: r =>
-               Nat.leb c k &&
-               match nth_error items k with
-               | Some x => is_container x && negb (Nat.eqb (length dd) 0) && wf_diff fuel' x dd
-               | None => false
-               end && wf_seq (k + 1) true r
-           | _ => false
-           end) 0 true d
+        swf (length items) vl_is_list
+            (fun k dd => match nth_error items k with
+                         | Some x => is_container x && negb (Nat.eqb (length dd) 0) && wf_diff fuel' x dd
+                         | None => false end) 0 true d
     | JObj kv =>
         (fix wf_map (prev : option pystr) (d : list dentry) {struct d} : bool :=
            match d with
@@ -83,7 +75,7 @@ Fixpoint wf_diff (fuel : nat) (a : json) (d : list dentry) {struct fuel} : bool 
                    end && wf_map (Some k) r
                end
            end) None d
-    | JStr s => wf_lines (splitlines s) 0 true d
+    | JStr s => wf_lines (splitlines s) d
     | _ => false
     end
   end.
